@@ -373,6 +373,7 @@ static void deframe_http(std::string const &s,bool eof,deframed &d)
 	if(ncl>1 || nte>1) { d.verdict="duplicate-framing-header"; d.complete=true; return; }
 	if(nte==1) {
 		if(lower(te)!="chunked") { d.verdict="bad-te"; d.complete=true; return; }
+		if(d.hdr.compare(0,8,"HTTP/1.1")!=0) { d.verdict="chunked-on-http10"; d.complete=true; return; }
 		if(ncl) { d.verdict="cl-and-te"; d.complete=true; return; }
 		size_t q=b;
 		for(;;) {
